@@ -817,6 +817,10 @@ struct StrSys : World {
         }
         if (vf::events_total()) fail("heap-event", vf::g_alloc.first_event);
         for (int s = 0; s < 2; ++s) {
+            std::string fd = slots[s].fence_damage();
+            if (!fd.empty()) fail("write-outside-object", strf("s%d: %s", s, fd.c_str()));
+        }
+        for (int s = 0; s < 2; ++s) {
             if (!slots[s].alive) continue;
             std::string bad = validity(s);
             const char *role = s == o.i ? "target" : s == moved ? "moved-from" : "other";
@@ -888,6 +892,10 @@ struct StrSys : World {
                 if (!same(before[t], t)) f.push_back(Fail{"c04:scalar-read-changed-a-string", strf("s%d changed during scalar reads of s%d", t, s)});
         }
         if (vf::events_total()) f.push_back(Fail{"c04:read:heap-event", vf::g_alloc.first_event});
+        for (int s = 0; s < 2; ++s) {
+            std::string fd = slots[s].fence_damage();
+            if (!fd.empty()) f.push_back(Fail{"c04:read:write-outside-object", strf("s%d: %s", s, fd.c_str())});
+        }
         if (f.empty() && vf::live_tracked() != owned_blocks())
             f.push_back(Fail{"c04:read:leak", strf("%zu blocks live after reads, %zu owned", vf::live_tracked(), owned_blocks())});
         if (sample_list.size() < 4 && nontrivial()) sample_list.push_back(strf("s0=%s s1=%s", vf::vis(model[0]).c_str(), vf::vis(model[1]).c_str()));
